@@ -202,8 +202,15 @@ fn c02_family<S: Sch>(t: Tier, seed: u64, out: &mut Vec<Entry>) {
             add("1p2z-batch-comm", mk(vec![PolySpec::new(2)], 0).points(2, vec![(0, 0), (0, 1)]), Mode::Batch, Kind::Comm, false);
         }
     }
+    if matches!(name, "ligero-uni" | "ligero-ml") {
+        // parameters without the well-formedness check
+        let mut c = mk(vec![PolySpec::new(2), PolySpec::new(2)], 0);
+        c.sz.ligero.2 = false;
+        add("2p1z-val@0-no-wellformedness", c.clone(), Mode::Single, Kind::Value(0), false);
+        add("2p1z-val@1-no-wellformedness", c, Mode::Single, Kind::Value(1), false);
+    }
     // vacuity twin: the negated assertion must be violated
-    if name != "hyrax" {
+    if name != "hyrax" && name != "ipa" {
         add("twin-1p1z-val", mk(vec![PolySpec::new(2)], 0), Mode::Single, Kind::Value(0), true);
     }
     // check_combinations: claimed value of a combination with a constant term, queried at two points (C06's driver;
@@ -442,6 +449,16 @@ fn c06_family<S: Sch>(t: Tier, seed: u64, out: &mut Vec<Entry>) {
     add("honest-2lcs-1point", mk(conc(2), 1), s_two.clone(), Pert::None, false);
     add("honest-2z-alias", mk(conc(2), 2), s_alias.clone(), Pert::None, false);
     add("honest-1p-sympoly", mk(vec![PolySpec::new(2)], 1), s_one.clone(), Pert::None, false);
+    // several constant terms in one combination; a combination over a hiding and a non-hiding polynomial
+    let s_kk = LcShape { lcs: vec![vec![T::One, T::P(0), T::One]], queries: vec![(0, 0)] };
+    add("honest-two-constants", mk(conc(1), 1), s_kk.clone(), Pert::None, false);
+    if S::HIDING && name != "hyrax" {
+        let mut c = mk(vec![PolySpec::new(2).conc().hide(1), PolySpec::new(2).conc()], 1);
+        c.sz = std_size::<S>(t, 1);
+        c.rng_nonzero = true;
+        add("honest-mixed-hiding", c.clone(), LcShape { lcs: vec![vec![T::P(0), T::P(1)]], queries: vec![(0, 0)] }, Pert::None, false);
+        add("honest-mixed-hiding-rev", c, LcShape { lcs: vec![vec![T::P(1), T::P(0), T::One]], queries: vec![(0, 0)] }, Pert::None, false);
+    }
     if name != "ipa" {
         // perturbations (IPA's challenges are hashes of the perturbed data: decided through C10 instead)
         add("val+d", mk(conc(2), 1), s_abk.clone(), Pert::Value(0), false);
@@ -450,6 +467,7 @@ fn c06_family<S: Sch>(t: Tier, seed: u64, out: &mut Vec<Entry>) {
         add("coeff+d", mk(conc(2), 1), s_abk.clone(), Pert::Coeff, false);
         add("const+d", mk(conc(2), 1), s_abk.clone(), Pert::Const, false);
         add("const+d-2z", mk(conc(2), 2), s_alias.clone(), Pert::Const, false);
+        add("val+d-two-constants", mk(conc(1), 1), s_kk.clone(), Pert::Value(0), false);
         if matches!(name, "hyrax" | "ligero-uni" | "ligero-ml" | "brakedown") {
             add("eval-shift", mk(conc(2), 1), LcShape { lcs: vec![vec![T::P(0), T::P(1)]], queries: vec![(0, 0)] }, Pert::EvalShift, false);
         }
@@ -508,6 +526,10 @@ fn catalogue_inner(prop: &str, t: Tier, seed: u64, out: &mut Vec<Entry>) {
             c02_family::<Marlin>(t, seed, out);
             c02_family::<Sonic>(t, seed, out);
             c02_family::<Pst13>(t, seed, out);
+            // IPA: with a changed value its challenges are other oracle outputs, so acceptance on the clean tree needs
+            // solver-chosen oracle outputs and is filtered by the natural-oracle replay; a verifier that loses the
+            // verdict accepts deterministically
+            c02_family::<Ipa>(t, seed, out);
             c02_family::<Hyrax>(t, seed, out);
             c02_family::<LigeroUni>(t, seed, out);
             c02_family::<LigeroMl>(t, seed, out);
@@ -781,6 +803,12 @@ fn catalogue_inner(prop: &str, t: Tier, seed: u64, out: &mut Vec<Entry>) {
             uni!(Marlin);
             uni!(Sonic);
             uni!(Ipa);
+            for (n, k) in [(4usize, 1usize), (5, 2)] {
+                let mut en = e(format!("streaming/commit-folding-n{}-k{}", n, k), t, "coefficients (zero coefficients included), folding challenges", format!("{} coefficients, {} folding levels (C14's driver: commit_folding = time commitment of every folded polynomial)", n, k), move || c14::fold(n, k, 4, seed));
+                en.funcs = f.clone();
+                if quick { en.lim.wall_s = 40.0; }
+                out.push(en);
+            }
             {
                 let c = mk(Size::mv(2, 2, 0), vec![PolySpec::new(3)]);
                 let c3 = c.clone();
